@@ -197,6 +197,10 @@ func c12(c *Check) {
 	}
 	c.WhoMayCall("C12/who-writes-registry", c.F(agK+"Keeper.DeleteTokenPair"), "keeper.(Keeper).UpdateTokenPairERC20", "keeper.(Keeper).ConvertCoin", "keeper.(Keeper).ConvertERC20")
 
+	c.Rule("C12/add-coin-keeps-the-pair", "AddCoin stores the pair it loaded with nothing but the denomination list changed: contract address, owner and the enabled flag of the existing pair are kept (a pair disabled by governance stays disabled when a coin is added)", 1)
+	addCoinKeepsPair(c, "C12/add-coin-keeps-the-pair")
+	c.Rule("C12/conversion-resolves-through-the-indexes", "frozen table (shared with C11/gate): MintingEnabled resolves the message's token and denomination through the registry indexes and requires both to name the same stored pair, so every denomination the registry lists for a pair can be converted, in either direction, after any registry change", 5)
+	c.FrozenFiltered("C11", "C12/conversion-resolves-through-the-indexes", func(fn string) bool { return strings.HasSuffix(fn, "Keeper.MintingEnabled") })
 	c.Rule("C12/registered-tests-read-their-own-index", "IsDenomRegistered answers from the by-denomination index at exactly the denomination it is given, IsERC20Registered from the by-contract index at exactly the address bytes: the uniqueness guards of the registration functions mean what their names say for every input (no resolver that guesses the kind of the token from its spelling)", 2)
 	ks := "store/prefix.NewStore(cosmos-sdk/types.(Context).KVStore($1, $0.storeKey), g:aggregate/types.%s)"
 	c.Spec("C12/registered-tests-read-their-own-index", Macros{}, FnSpec{Fn: agK + "Keeper.IsDenomRegistered",
@@ -287,4 +291,25 @@ func threeWayRule(c *Check, rule, fnSpec string, wantAddr func(p string) []strin
 		}
 	}
 	c.Req(okA, rule, funcName(fn)+"/contract indexed", sets[0].Ins.Pos(), "SetERC20Map(P's contract, P.GetID())", fmt.Sprintf("pair is stored but its contract address is not indexed with its own id; seen: %v", seenA))
+}
+
+// addCoinKeepsPair: see C12/add-coin-keeps-the-pair (shared with C11).
+func addCoinKeepsPair(c *Check, rule string) {
+	ac := c.F(agK + "Keeper.AddCoin")
+	for _, cs := range c.Calls(ac, "keeper.(Keeper).SetTokenPair") {
+		arg := c.P.ArgExprs(cs)[2]
+		fromLoad, rebuilt := false, ""
+		arg.Walk(func(e *Expr) {
+			if e.IsCall("keeper.(Keeper).GetTokenPair") {
+				fromLoad = true
+			}
+			if e.Op == "kv" && (e.Name == "Enabled" || e.Name == "ContractOwner" || e.Name == "ERC20Address") {
+				rebuilt = e.Name
+			}
+			if e.IsCall("types.NewTokenPair") {
+				rebuilt = "NewTokenPair"
+			}
+		})
+		c.Req(fromLoad && rebuilt == "", rule, funcName(ac)+"/stored pair", cs.Ins.Pos(), "loaded pair with Denoms extended", "AddCoin stores "+trunc(arg.String())+": the stored pair is rebuilt ("+rebuilt+") instead of being the loaded pair with one more denomination, so flags of the existing pair (enabled, owner) are reset")
+	}
 }
